@@ -226,6 +226,18 @@ fn oracle(s: &ProgScene<X>, t: &Trace) -> Vec<Violation> {
     out
 }
 
+thread_local! {
+    /// handlers wait their duration in one-tick pieces (see `Work::split`)
+    static SPLIT: std::cell::Cell<bool> = const { std::cell::Cell::new(false) };
+}
+
+fn with_split<T>(f: impl FnOnce() -> T) -> T {
+    SPLIT.with(|s| s.set(true));
+    let r = f();
+    SPLIT.with(|s| s.set(false));
+    r
+}
+
 fn make_case(timeout: Option<u32>, fail: bool, durs: &[u32], mailbox: Mailbox, layout: u8) -> Case {
     make_case_s(timeout, fail, durs, mailbox, layout, Strat::Default)
 }
@@ -236,7 +248,7 @@ fn make_case_s(timeout: Option<u32>, fail: bool, durs: &[u32], mailbox: Mailbox,
     for (k, d) in durs.iter().enumerate() {
         let id = 10 + k as u32;
         durations.push((id, *d));
-        role.work.push((id, Work { sleep: *d, ..Work::default() }));
+        role.work.push((id, Work { sleep: *d, split: SPLIT.with(|s| s.get()), ..Work::default() }));
     }
     // layout 0: one client sends all but the last and calls the last; layout 1: one caller per message
     let mut clients = vec![];
@@ -266,7 +278,12 @@ fn make_case_s(timeout: Option<u32>, fail: bool, durs: &[u32], mailbox: Mailbox,
     if fail {
         clients.push(ClientSpec { init: vec![HInit::Addr], ops: vec![Op::Sleep(total), Op::Halt(H::Addr(0))] });
     }
-    let desc = format!("timeout{} t={timeout:?} fail={fail} durations={durs:?} mailbox={} layout={layout} strategy={strat:?}", crate::progscene::variant_tag(), mailbox.name());
+    let desc = format!(
+        "timeout{}{} t={timeout:?} fail={fail} durations={durs:?} mailbox={} layout={layout} strategy={strat:?}",
+        crate::progscene::variant_tag(),
+        if SPLIT.with(|s| s.get()) { " [handlers wait in one-tick pieces]" } else { "" },
+        mailbox.name()
+    );
     Case {
         desc,
         exec: ExecCfg { horizon: 200, ..ExecCfg::default() },
@@ -362,6 +379,11 @@ fn base_cases(tier: Tier) -> Vec<Case> {
 /// case (thorough: every second) in each of the three other orders the builder allows.
 fn cases(tier: Tier) -> Vec<Case> {
     let mut v = base_cases(tier);
+    // the limit is on the whole invocation, however often the handler is woken in between:
+    // the same family with every duration waited as separate one-tick waits
+    // (every wake-up is one more select! poll, i.e. one more explored tie-break: short limits only)
+    let short = |d: &str| (d.contains("t=Some(1)") || d.contains("t=Some(2)")) && (tier == Tier::Thorough || d.matches(',').count() <= 1);
+    v.extend(with_split(|| base_cases(tier)).into_iter().filter(|c| short(&c.desc)));
     for order in 1..=3u8 {
         let var = crate::progscene::Variant { builder_order: order, ..Default::default() };
         let extra = crate::progscene::with_variant(var, || base_cases(tier));
